@@ -381,6 +381,23 @@ def gen_ctf(rng, n, phase):
              "ang": rng.randint(-9000, 9000), "ps": (rng.randint(0, 3141) if phase else 0)} for _ in range(n)]
 
 
+def gen_consts(rng):
+    """Pass-through scalars: exact zeros, the documented defaults and arbitrary values (zeros and values equal to a
+    default are what truthiness / `or` fallbacks get wrong).  Pixel size 0 is meaningless and not drawn."""
+    return {"px": rng.choice([1000, 1327, 2400, rng.randint(500, 20000)]),
+            "voltage": rng.choice([3000, 3000, 0, 2000, 1200, rng.randint(1, 4000)]),
+            "amp": rng.choice([70, 70, 0, 100, 85, rng.randint(1, 999)]),
+            "cs": rng.choice([270, 270, 0, 0, 200, 1, rng.randint(1, 500)])}
+
+
+def gen_zshift(rng):
+    return rng.choice([0, 0, rng.randint(-2000, 2000), rng.randint(-2000, 2000), -rng.randint(1, 50)])
+
+
+def gen_dose(rng):
+    return rng.choice([0, 0, rng.randint(0, 30000), rng.randint(0, 30000), rng.randint(0, 30000)])
+
+
 def gen_table_case(rng, idx):
     r = rng.random()
     n = rng.choice([1, 2, rng.randint(1, 80), rng.randint(1, 80), 80])
@@ -392,13 +409,13 @@ def gen_table_case(rng, idx):
         return {"kind": "loader", "id": idx, "what": "tlt", "vals": vals, "sort": rng.random() < 0.7 or inp != "mdoc",
                 "input": inp}
     if r < 0.22:
-        return {"kind": "loader", "id": idx, "what": "dose", "vals": [rng.randint(0, 30000) for _ in range(n)],
+        return {"kind": "loader", "id": idx, "what": "dose", "vals": [gen_dose(rng) for _ in range(n)],
                 "input": rng.choice(["file", "file", "array", "list"])}
     if r < 0.32:
         tl = gen_tilts(rng, n)
         rng.shuffle(tl)                                       # acquisition order, not tilt order
         return {"kind": "loader", "id": idx, "what": "mdocdose", "sort": rng.random() < 0.7,
-                "imgs": [{"tilt": t, "prior": rng.randint(0, 20000), "expo": rng.randint(1, 500)} for t in tl]}
+                "imgs": [{"tilt": t, "prior": rng.choice([0, rng.randint(0, 20000), rng.randint(0, 20000)]), "expo": rng.choice([0, rng.randint(1, 500), rng.randint(1, 500), rng.randint(1, 500)])} for t in tl]}
     if r < 0.5:
         fmt = rng.choice(["gctf", "gctf_nophase", "ctffind4"])
         return {"kind": "loader", "id": idx, "what": "defocus", "fmt": fmt, "via": rng.choice(["read", "defocus_load"]),
@@ -416,18 +433,17 @@ def gen_table_case(rng, idx):
     with_dose = rng.choice(["none", "file", "array" if mode == "single" else "file"])
     same_dims = rng.random() < 0.25
     dim0 = [rng.randint(100, 5000), rng.randint(100, 5000), rng.randint(50, 3000)]
-    zs0 = rng.randint(-2000, 2000)
+    zs0 = gen_zshift(rng)
     same_z = rng.random() < 0.3
     tomos = []
     for t in ids:
         k = rng.choice([1, 2, rng.randint(1, 80), rng.randint(1, 41)])
         tomos.append({"id": t, "tilts": gen_tilts(rng, k),
                       "ctf": gen_ctf(rng, k, with_ctf != "gctf_nophase") if with_ctf != "none" else [],
-                      "dose": [rng.randint(0, 30000) for _ in range(k)] if with_dose != "none" else [],
+                      "dose": [gen_dose(rng) for _ in range(k)] if with_dose != "none" else [],
                       "dim": list(dim0) if same_dims else [rng.randint(100, 5000), rng.randint(100, 5000), rng.randint(50, 3000)],
-                      "zshift": zs0 if same_z else rng.randint(-2000, 2000)})
-    consts = {"px": rng.choice([1000, 1327, 2400, rng.randint(500, 20000)]), "voltage": rng.choice([3000, 2000, 1200]),
-              "amp": rng.choice([70, 100, 85]), "cs": rng.choice([270, 200, 1])}
+                      "zshift": zs0 if same_z else gen_zshift(rng)})
+    consts = gen_consts(rng)
     return {"kind": "wedge", "id": idx, "what": mode, "tomos": tomos, "consts": consts, "tomo_input": tomo_input,
             "ctf": with_ctf, "dose": with_dose, "tlt_input": rng.choice(["file", "array"]) if mode == "single" else "file",
             "dims_input": rng.choice(["same"] if same_dims else ["table", "table_file", "per_tomo_files"]),
@@ -661,7 +677,7 @@ def gen_session_case(rng, idx):
     tl = gen_tilts(rng, n)
     acq = list(tl)
     rng.shuffle(acq)                                          # acquisition order of the mdoc
-    imgs = [{"tilt": t, "prior": rng.randint(0, 20000), "expo": rng.randint(1, 500)} for t in acq]
+    imgs = [{"tilt": t, "prior": rng.choice([0, rng.randint(0, 20000), rng.randint(0, 20000)]), "expo": rng.choice([0, rng.randint(1, 500), rng.randint(1, 500), rng.randint(1, 500)])} for t in acq]
     fmt = rng.choice(["gctf", "gctf_nophase", "ctffind4"])
     calls = []
     for _ in range(rng.randint(3, 9)):
@@ -673,9 +689,9 @@ def gen_session_case(rng, idx):
             c["via"] = rng.choice(["read", "defocus_load"])
         calls.append(c)
     return {"kind": "session", "id": idx, "imgs": imgs, "ctf": gen_ctf(rng, n, fmt != "gctf_nophase"), "fmt": fmt,
-            "dosevals": [rng.randint(0, 30000) for _ in range(n)], "tid": rng.randint(1, 998),
-            "dim": [rng.randint(100, 5000), rng.randint(100, 5000), rng.randint(50, 3000)], "zshift": rng.randint(-2000, 2000),
-            "consts": {"px": rng.choice([1000, 1327, 2400]), "voltage": 3000, "amp": 70, "cs": 270},
+            "dosevals": [gen_dose(rng) for _ in range(n)], "tid": rng.randint(1, 998),
+            "dim": [rng.randint(100, 5000), rng.randint(100, 5000), rng.randint(50, 3000)], "zshift": gen_zshift(rng),
+            "consts": gen_consts(rng),
             "calls": calls, "variant": rng.randrange(1000)}
 
 
